@@ -293,7 +293,21 @@ func TestPropRevertAndForkConvergence(t *testing.T) {
 					addr: rapid.SampledFrom(ids.Addrs).Draw(rt, label+"-addr"), key: rapid.SampledFrom(ids.Keys).Draw(rt, label+"-key")}
 			}
 
-			a := node.New(newState, adb, u.Net)
+			// a quarter of the short-chain cases run node A on the production store (Pebble v2): real batches, snapshots and
+			// prefix iterators with upper bounds under the revert path (nodes B / the fresh nodes stay on the memory store:
+			// the comparison is observational)
+			var a *node.Node
+			if baseN == 0 && gen.Uniform(rt, 4, "pebbleA") == 0 {
+				pa, cleanup, err := node.NewPebble(newState, u.Net)
+				if err != nil {
+					stats.HarnessError("pebble: %v", err)
+				}
+				defer cleanup()
+				a = pa
+				c.Label("node-A-on-pebble")
+			} else {
+				a = node.New(newState, adb, u.Net)
+			}
 			for _, b := range f1.Blocks[baseN:] {
 				if err := a.Store(b); err != nil {
 					c.Violation("valid-block-rejected", "node A (%s) rejected valid block %d: %v", a.Backend(), b.Num(), err)
